@@ -257,6 +257,34 @@ func runExposure(c *run.Ctx, prop string) {
 		}
 		w.AddFeature("reorderedExpressions")
 	}
+	// one policy opens a NAMED port to the entire cluster for several workloads that carry other numbers behind the name (or none)
+	if g.P(0.12) && len(w.Workloads) > 1 {
+		x := rng.Pick(g, w.Workloads)
+		name := rng.Pick(g, world.PortNames)
+		n := 0
+		for i := range w.Workloads {
+			if w.Workloads[i].Ns != x.Ns {
+				continue
+			}
+			kept := []world.CPort{}
+			for _, cp := range w.Workloads[i].Ports {
+				if cp.Name != name {
+					kept = append(kept, cp)
+				}
+			}
+			if n != 1 { // the second workload of the namespace does not define the name at all
+				kept = append(kept, world.CPort{Num: 7000 + 10*n, Name: name, Proto: "TCP"})
+			}
+			w.Workloads[i].Ports = kept
+			n++
+		}
+		rule := world.NPRule{Ports: []world.NPPort{{Name: name}}}
+		if g.P(0.5) {
+			rule.Peers = []world.NPPeer{{NsSel: &world.Sel{}}}
+		}
+		w.NetPols = append(w.NetPols, world.NetPol{Ns: x.Ns, Name: "named-port-for-all", PodSel: world.Sel{}, HasTypes: true, PolicyTypes: []string{"Ingress"}, Ingress: []world.NPRule{rule}})
+		w.AddFeature("namedPortOpenToEntireClusterForSeveralWorkloads")
+	}
 	// "all pods of the namespaces matching S" written once WITHOUT podSelector and once with an explicit empty one, in two rules with
 	// different ports (added after the spellings are unified on purpose)
 	if g.P(0.15) && len(w.Workloads) > 0 {
